@@ -319,7 +319,7 @@ let parse_inst (l : ostr) : tinst =
   let c = mk_cur l in
   let nvars = next_i c in let nbase = next_i c in let init = next_z c in let initval = next_z c in
   let slack = next_z c in let rubkind = next_z c in let domkind = next_z c in let usevalue = next_b c in
-  let ncoord = next_i c in let _orderkind = next_i c in
+  let ncoord = next_i c in let orderkind = next_i c in
   let order = List.init nvars (fun _ -> next_n c) in
   let nt = next_i c in
   let trans = List.init nt (fun _ ->
@@ -329,9 +329,11 @@ let parse_inst (l : ostr) : tinst =
   let rub = if int_of_z rubkind = 1 then List.init nbase (fun _ -> next_z c) else [] in
   let key = if int_of_z domkind = 1 then List.init nbase (fun _ -> next_z c) else [] in
   let coords = if int_of_z domkind = 1 then List.init nbase (fun _ -> List.init ncoord (fun _ -> next_z c)) else [] in
+  let pos = if orderkind = 1 then List.init nbase (fun _ -> next_z c) else [] in
+  let up = if orderkind = 1 then List.init nbase (fun _ -> next_z c) else [] in
   { t_nvars = nat_of_int nvars; t_nbase = nat_of_int nbase; t_init = init; t_initval = initval; t_slack = slack;
     t_rubkind = rubkind; t_domkind = domkind; t_usevalue = usevalue; t_ncoord = nat_of_int ncoord; t_order = order;
-    t_trans = trans; t_notimp = notimp; t_rub = rub; t_key = key; t_coords = coords }
+    t_trans = trans; t_notimp = notimp; t_rub = rub; t_key = key; t_coords = coords; t_mergekind = z_of_int orderkind; t_pos = pos; t_up = up }
 
 let st_str (s : tstate) = "[" ^ String.concat "," (List.map string_of_z s) ^ "]"
 let sub_str (sp : tstate subproblem) =
